@@ -597,9 +597,43 @@ SPECS["C04"] = rt_spec("C04", one_part("join", join_case), {"quick": 9000, "thor
     "(join+join, join+tryjoin), join/tryjoin after detach on a gated target, detach while another fiber is blocked in join; " + SCHED_TXT +
     "Oracle: success only after the target's function returned and with its token, <= 1 success per target, join after detach fails, destroy hooks: reclaimed exactly once "
     "and by quiescence, shadow heap: no touch after reclaim. Non-trivial = a join/tryjoin actually raced with completion (joiner slept, or target waited, or tryjoin retried).")
+@st.composite
+def chan_after_msig_case(draw, tier):
+    """the channel receiver has slept on a multi-signal before it blocks on the channel's signal (both use the fiber's
+    scratch word), senders raise from other kernel threads"""
+    threads = draw(ints(2, T(tier, 3, 4)))
+    ctype = draw(st.sampled_from([0, 2]))
+    nsend = draw(ints(1, 3))
+    fibers = []
+    total = 0
+    for _ in range(nsend):
+        n = draw(ints(1, 8))
+        total += n
+        fibers.append(small_ops(draw, 2) + [op("send", 0, n, draw(ints(0, 2)))])
+    recv = small_ops(draw, 1) + [op("mwait")]
+    left = total
+    while left > 0:
+        b = draw(ints(1, left))
+        recv.append(op("recv", 0, b, draw(ints(0, 1))))
+        if draw(ints(0, 2)) == 0:
+            recv.append(op("mwait"))
+        left -= b
+    fibers.insert(draw(ints(0, len(fibers))), recv)
+    nwaits = sum(1 for o in recv if o[0] == "mwait")
+    fibers.append(small_ops(draw, 2) + [op("mraise") for _ in range(draw(ints(0, nwaits)))])
+    fibers.append([op("mctl")])
+    # the receiver may sit in mwait until quiescence (controller): a bounded channel must be able to hold everything meanwhile
+    cap = 1
+    while (1 << cap) < total:
+        cap += 1
+    cfg = {"nchan": 1, "chan_type0": ctype, "chan_cap0": cap, "msig": 1, "nmutex": 0}
+    return {"harness": "mixed", "threads": threads, "cfg": cfg, "fibers": fibers, "classes": ["threads=%d" % threads, "receiver_slept_on_multi_signal_before"]}
+
+
 def c11_parts(tier):
-    return [{"name": "chan", "strategy": chan_case(tier), "nsched": T(tier, 32, 160), "args": ["--tso", T(tier, 0, 1)], "share": 0.6},
-            {"name": "mchan", "strategy": mchan_case(tier), "nsched": T(tier, 32, 160), "args": ["--tso", T(tier, 0, 1)], "share": 0.4}]
+    return [{"name": "chan", "strategy": chan_case(tier), "nsched": T(tier, 32, 160), "args": ["--tso", T(tier, 0, 1)], "share": 0.5},
+            {"name": "mchan", "strategy": mchan_case(tier), "nsched": T(tier, 32, 160), "args": ["--tso", T(tier, 0, 1)], "share": 0.3},
+            {"name": "chan_after_msig", "strategy": chan_after_msig_case(tier), "nsched": T(tier, 32, 160), "args": ["--tso", T(tier, 0, 1)], "share": 0.2}]
 SPECS["C11"] = rt_spec("C11", c11_parts, {"quick": 9000, "thorough": 40000},
     "bounded channel (2^1..2^4 slots, with signal and spinning), unbounded MPSC channel (with signal / spinning), single-producer channel: 1-4 senders (1 for SP), one receiver, "
     "1-12(30) messages per sender in bursts; multi channel: 1-4 senders, 1-3 receivers, capacity 2-8; " + SCHED_TXT + "Oracle: multiset(received) == multiset(sent), per-sender "
@@ -685,7 +719,9 @@ def mpmc_case(draw, tier):
         worker = [op("push", n), op("pop", n), op("push", draw(ints(1, 4)))]
         victim = small = [op("pop", draw(ints(1, 2)), draw(ints(0, 1)))]
         fibers = [worker, victim] if draw(st.booleans()) else [victim, worker]
-        return {"harness": "mpmc", "threads": 1, "cfg": {"recycle": 1, "lazy_records": 1}, "fibers": fibers, "classes": ["stalled_popper_shape", "recycle", "lazy_records"]}
+        rec, far = draw(ints(0, 1)), draw(ints(0, 1))
+        return {"harness": "mpmc", "threads": 1, "cfg": {"recycle": rec, "lazy_records": 1, "far": far}, "fibers": fibers,
+                "classes": ["stalled_popper_shape", "recycle" if rec else "free", "lazy_records"] + (["far_addresses"] if far else [])}
     npush = draw(ints(1, 3))
     npop = draw(ints(1, 3))
     recycle = draw(ints(0, 1))
